@@ -50,5 +50,18 @@ def main(argv=None) -> int:
     return run_check(prop, a.tier, Path(a.root), wrapped)
 
 
+def _main_with_deep_stack() -> int:
+    """The interpreter of the analysed code is recursive (one Python frame per nested construct of a 90-level shape, inside the
+    frames of the entry point it is reached through): run in a thread with a large stack and a recursion limit to match."""
+    import threading
+    result = []
+    sys.setrecursionlimit(60000)
+    threading.stack_size(512 * 1024 * 1024)
+    t = threading.Thread(target=lambda: result.append(main()))
+    t.start()
+    t.join()
+    return result[0] if result else 2
+
+
 if __name__ == "__main__":
-    sys.exit(main())
+    sys.exit(_main_with_deep_stack())
